@@ -1,8 +1,10 @@
 """C16 -- canonical JSON output conforms to RFC 8785 (bounded stand-in against an independent spec function)."""
 import itertools, json, math, struct
 from spec.rfc8785 import canon, enc_number
+from contracts import canonical as KC
+from vf.check import SRC_ROOT
 
-LEVEL = 'exploration'
+LEVEL = 'other'
 RFC_SAMPLES = {0x0000000000000000: '0', 0x8000000000000000: '0', 0x0000000000000001: '5e-324', 0x8000000000000001: '-5e-324', 0x7fefffffffffffff: '1.7976931348623157e+308',
                0xffefffffffffffff: '-1.7976931348623157e+308', 0x4340000000000000: '9007199254740992', 0xc340000000000000: '-9007199254740992', 0x4430000000000000: '295147905179352830000',
                0x44b52d02c7e14af5: '9.999999999999997e+22', 0x44b52d02c7e14af6: '1e+23', 0x44b52d02c7e14af7: '1.0000000000000001e+23', 0x444b1ae4d6e2ef4e: '999999999999999700000',
@@ -46,10 +48,18 @@ def norm(v):
 
 def run(chk):
     from stix2.canonicalization.Canonicalize import canonicalize
-    chk.explanation = ('No clause is proved: the encoder is a closure/generator pipeline with float->text conversion and string surgery outside the modelled subset (see DESIGN). '
-                       'Bounded stand-in: canonicalize(v, utf8=False) is compared with an independent RFC 8785 spec function (UTF-16 code-unit ordering by explicit surrogate '
-                       'arithmetic, escape table, ECMAScript Number::toString by shortest-round-trip digit search over exact rationals) on a value grid; plus parse-back, '
-                       'idempotence, insertion-order independence, refusal of NaN/infinity.  The spec function itself is checked against the 24 number samples of RFC 8785 Appendix B on every run.')
+    chk.explanation = ('Proved: convert2Es6Format (the real text, executed symbolically once per shape = sign x number of significant digits x decimal exponent, every digit symbolic) returns '
+                       'ECMAScript Number::toString of the double, for every shape of the tier (thorough: all 17 x 633 x 2 shapes of finite doubles), and refuses NaN / infinities / integers '
+                       'beyond the double range, under the assumed layout of float.__repr__ (probed each run).  Exhaustive over all code points: the string encoder bound at import and the pure-Python '
+                       'fallback write every single character as RFC 8785 3.2.2.2 says.  Call-site obligations tie these to every place where the encoder closures write a number or a '
+                       'string and to the member sort (key = UTF-16 big-endian bytes; three z3 lemmas: byte order of that encoding is code-unit order).  NOT proved: the recursive encoder closures '
+                       '(generators over nested mutable data, outside the modelled subset) -- nesting, separators, circular-reference bookkeeping, insertion-order independence, parse-back and '
+                       'the fixed point are carried by the bounded stand-in: canonicalize(v, utf8=False) against an independent RFC 8785 spec function on a value grid.  '
+                       'The spec function itself is checked against the 24 number samples of RFC 8785 Appendix B on every run.')
+    KC.run_number_contract(chk, chk.tier, SRC_ROOT)
+    KC.string_obligations(chk)
+    KC.structure_obligations(chk, SRC_ROOT)
+    KC.probe_repr_layout(chk, numbers(chk.tier))
     chk.trust('spec/rfc8785.py as a reading of RFC 8785 / ECMA-262 Number::toString (validated against the RFC\'s Appendix B samples each run)')
     bad = [(hex(b), enc_number(struct.unpack('>d', struct.pack('>Q', b))[0]), w) for b, w in RFC_SAMPLES.items() if enc_number(struct.unpack('>d', struct.pack('>Q', b))[0]) != w]
     chk.extra['oracle_selftest'] = {'rfc8785_appendix_b_samples': len(RFC_SAMPLES), 'mismatches': bad}
